@@ -462,7 +462,8 @@ pub fn run(ctx: &Ctx, rep: &Report) {
     // two aircraft: all merge orders of two 3-report sequences
     let sub: Vec<&Traj> = cat.iter().filter(|t| t.reference_nm != Some(40.0)).step_by((cat.len() / if thorough { 24 } else { 10 }).max(1)).collect();
     let pair_total = AtomicU64::new(0);
-    let small_gaps = [0.0, 0.4, 9.9, 30.0];
+    // 4000 s: longer than any retention a decoder may apply to silent aircraft
+    let small_gaps = [0.0, 0.4, 9.9, 30.0, 4000.0];
     let seqs: Vec<Vec<Step>> = {
         let mut v = Vec::new();
         for a in 0..2 {
@@ -489,7 +490,11 @@ pub fn run(ctx: &Ctx, rep: &Report) {
         let (tpa, tpb) = (templates(0x4840d6), templates(0x4840d7));
         let mut n = 0u64;
         for (si, sa) in seqs.iter().enumerate() {
-            let sb = &seqs[(si * 7 + 3) % seqs.len()];
+          // the second aircraft is first heard at the same time, or 4000.2 s later (between two reports of the first)
+          for b_offset in [0.0, 4000.2] {
+            let mut sb = seqs[(si * 7 + 3) % seqs.len()].clone();
+            sb[0].dt = b_offset;
+            let sb = &sb;
             let (Some(ra), Some(rb)) = (build(ta, &tpa, sa), build(tb, &tpb, sb)) else { continue };
             let solo_a = run_decoder(&ra.iter().collect::<Vec<_>>(), reference);
             let solo_b = run_decoder(&rb.iter().collect::<Vec<_>>(), reference);
@@ -521,6 +526,7 @@ pub fn run(ctx: &Ctx, rep: &Report) {
                     rep.violation("panic:two-aircraft", "decode_positions panicked on an interleaved run".into(), json!({"two": [traj_json(ta), traj_json(tb)], "steps": [steps_json(sa), steps_json(sb)]}));
                 }
             }
+          }
         }
         pair_total.fetch_add(n, Ordering::Relaxed);
     });
